@@ -1,6 +1,6 @@
 --------------------------- MODULE PacketRouteGraph ---------------------------
 (* G-mode product: Env x PacketRoute monitor x implementation graph of the real Arbiter / Dispatcher *)
-EXTENDS PacketRoute, Json, IOUtils
+EXTENDS PacketRoute, Json, IOUtils, GraphLookup
 G == JsonDeserialize(IOEnv.GRAPH)
 NDuts == Len(G.duts)
 VARIABLES d, s,
@@ -11,14 +11,14 @@ C == G.duts[d].cfg
 Init == /\ d \in 1..NDuts /\ s = 0 /\ ph = 0 /\ CInit
 Step(iv) ==
   /\ s >= 0
-  /\ LET k == ToString(iv) IN
-       IF k \in DOMAIN G.duts[d].succ[s + 1]
-       THEN LET e == G.duts[d].succ[s + 1][k] IN
-            /\ s' = e.d /\ d' = d
-            /\ CStep(C, iv, e.o)
-            /\ ph' = IF s' = s /\ cvars' = cvars THEN 1 - ph ELSE 0
-       ELSE /\ PrintT(<<"NEED", d, s, iv>>)
+  /\ LET e == GLookup(G.duts[d].succ[s + 1], iv) IN          \* <<iv, outputs, successor>> or <<>>
+       IF e # <<>>
+       THEN /\ s' = e[3] /\ d' = d
+            /\ CStep(C, iv, e[2])
+            /\ ph' = IF e[3] = s /\ cvars' = cvars THEN 1 - ph ELSE 0
+       ELSE /\ PrintT(<<"NEED", d, s, iv>>)                   \* ask the harness for this edge
             /\ s' = -1 /\ d' = d /\ ph' = 0 /\ UNCHANGED cvars
+
 Next == \E iv \in Inputs(C) : Step(iv)
 Alias == [d |-> d, s |-> s, ep |-> ep, own |-> own, wc |-> wc, obs |-> obs, iv |-> CHOOSE iv \in Inputs(C) : Step(iv)]
 Spec == Init /\ [][Next]_vars /\ WF_vars(Next)
